@@ -43,7 +43,7 @@ def main():
     tier = core.tier()
     k = gokernel.Kernel('C18', 'build', ['context_harness.go'], init=INIT, stubs=[('os.Getenv', 'VStub_Getenv'), ('go/build.defaultContext', 'VStub_DefaultContext'), ('(*sync.Map).Load', 'VStub_SyncMapLoad'), ('(*sync.Map).Store', 'VStub_SyncMapStore')])
     obs, files = observations() if not os.environ.get('VERIF_ONLY') else ({}, {})
-    rc, ev = gokernel.run_kernels('C18', [k], tier, write=False, extra={'toolchain_observations': {k_: v for k_, v in obs.items()}},
+    rc, ev = gokernel.run_kernels('C18', [k], tier, write=False, harness_re='^VHarness_' if tier == 'quick' else '^VHarness', extra={'toolchain_observations': {k_: v for k_, v in obs.items()}},
                                   title='the build context produced by goCtx/applyPreloadTweaks, evaluated by go/build.MatchFile on a table of tags, negated tags and file names',
                                   bounds={'tags': '20 tags (GOOS/GOARCH values, compilers, always-on tags, release tags around the supported version, cgo, foreign systems, two user tags), positive and negated, for user and standard-library packages and every subset of the two user tags',
                                           'file names': '19 names (every suffix form for js/ecmascript/wasm/foreign systems, test files, ignored prefixes, non-Go)',
